@@ -366,10 +366,87 @@ def check_case(case, counters, sets):
     return r, viols
 
 
+def gen_server_case(rng):
+    ops = []
+    for _ in range(rng.randrange(1, 9)):
+        ops.append([rng.choice(['start', 'stop', 'stop', 'start', 'stopstart', 'startstop']), rng.random() < 0.6])
+    return {'server': rng.choice(['from_tcp', 'from_http_server']), 'ops': ops}
+
+
+def check_server_case(case, counters, sets):
+    """from_tcp / from_http_server: run() opens a listening server and returns, stop() closes it.  Every listen() and stop()
+    of a tornado TCPServer is recorded (port 0: the system picks a free port).  For any history of start/stop calls, with
+    or without letting the loop run in between: no call raises; never two servers listening; once the loop has run, a
+    server is listening iff the source is started."""
+    from streamz import Stream
+    from tornado.tcpserver import TCPServer
+    viols, seen = [], set()
+
+    def add(key, what):
+        if key not in seen:
+            seen.add(key)
+            viols.append({'key': key, 'what': what, 'case': case})
+    listening = []
+    real_listen, real_stop = TCPServer.listen, TCPServer.stop
+
+    def listen(self, port, *a, **k):
+        r = real_listen(self, port, *a, **k)
+        listening.append(self)
+        return r
+
+    def stop(self):
+        if self in listening:
+            listening.remove(self)
+        return real_stop(self)
+    TCPServer.listen, TCPServer.stop = listen, stop
+    try:
+        with virtual_env() as env:
+            loop = env.loop
+            src = (Stream.from_tcp if case['server'] == 'from_tcp' else Stream.from_http_server)(0, asynchronous=True)
+            src.sink(lambda x: None)
+            started = False
+            for k, (op, then_run) in enumerate(case['ops']):
+                for call in {'start': ['start'], 'stop': ['stop'], 'stopstart': ['stop', 'start'], 'startstop': ['start', 'stop']}[op]:
+                    try:
+                        getattr(src, call)()
+                    except Exception as ex:            # noqa: BLE001
+                        add('C18:%s-raised:%s@%s' % (call, type(ex).__name__, case['server']),
+                            'op %d (%s): %s() raised %r; history so far %s' % (k, op, call, ex, case['ops'][:k + 1]))
+                    started = call == 'start'
+                    if len(listening) > 1:
+                        add('C18:two-servers-listening@%s' % case['server'], 'after op %d (%s) %d servers are listening' % (k, op, len(listening)))
+                if then_run:
+                    loop.drive(until_vt=loop.time() + 1.0, max_iters=2000)
+                    counters['server_states_checked'] = counters.get('server_states_checked', 0) + 1
+                    if len(listening) != (1 if started else 0):
+                        add('C18:server-state-after-%s@%s' % ('start' if started else 'stop', case['server']),
+                            'after op %d (%s) and a turn of the loop the source is %s but %d server(s) are listening; history %s'
+                            % (k, op, 'started' if started else 'stopped', len(listening), case['ops'][:k + 1]))
+            try:
+                src.stop()
+            except Exception:                          # noqa: BLE001 -- already judged above
+                pass
+            loop.drive(until_vt=loop.time() + 1.0, max_iters=2000)
+            for s_ in list(listening):
+                real_stop(s_)
+            for name, msg, exc in env.errors:
+                add('C18:loop-exception:%s@%s' % (type(exc).__name__ if exc is not None else 'log', case['server']), '%s %s %r' % (name, msg[:200], exc))
+    finally:
+        TCPServer.listen, TCPServer.stop = real_listen, real_stop
+    counters['server_histories'] = counters.get('server_histories', 0) + 1
+    sets.setdefault('source_kinds', set()).add(case['server'])
+    return viols
+
+
 def run_shard(seed, tier, shard, nshards):
     rng = random.Random('%s-%d-%d-%s' % (PID, seed, shard, tier))
     out = {'evaluations': 0, 'keys': [], 'violations': [], 'samples': [], 'counters': {},
            'sets': {}, 'inconclusive': []}
+    for k in range(n_cases(tier) // 10):
+        case = gen_server_case(rng)
+        out['violations'].extend(check_server_case(case, out['counters'], out['sets']))
+        out['evaluations'] += 1
+        out['keys'].append(progs.prog_key(case, None))
     for k in range(n_cases(tier)):
         case = one_case(rng, tier)
         r, viols = check_case(case, out['counters'], out['sets'])
@@ -386,5 +463,7 @@ def run_shard(seed, tier, shard, nshards):
 
 
 def replay(case):
+    if case.get('server'):
+        return check_server_case(case, {}, {})
     _, viols = check_case(case, {}, {})
     return viols or []
